@@ -4,6 +4,7 @@ import (
 	"crypto/rand"
 	"crypto/sha256"
 	"encoding/binary"
+	"errors"
 	"io"
 )
 
@@ -15,12 +16,26 @@ var Seed uint64 = 1
 
 var savedReader io.Reader
 
+// RandFailAfter: the system's random source (crypto/rand.Reader during an execution) fails from
+// its n-th Read on (0 = never fails): fault injection for code that draws salts.
+var RandFailAfter int
+
 type drbg struct {
-	ctr uint64
-	buf []byte
+	ctr    uint64
+	buf    []byte
+	reads  int
+	system bool
 }
 
+var errEntropy = errors.New("entropy source failed (injected)")
+
 func (d *drbg) Read(p []byte) (int, error) {
+	if d.system && RandFailAfter > 0 {
+		d.reads++
+		if d.reads >= RandFailAfter {
+			return 0, errEntropy
+		}
+	}
 	n := 0
 	for n < len(p) {
 		if len(d.buf) == 0 {
@@ -40,7 +55,7 @@ func (d *drbg) Read(p []byte) (int, error) {
 
 func resetRand() {
 	savedReader = rand.Reader
-	rand.Reader = &drbg{}
+	rand.Reader = &drbg{system: true}
 }
 
 func restoreRand() {
